@@ -304,7 +304,7 @@ def check_frontend(ctx, model):
         return
     # the per-asset closure building TransferFrom + IncreaseAllowance
     found = False
-    for q in [x for x in model.fnsrc if x.startswith(root + "::{closure")]:
+    for q in model.closures_of(root):
         cv = model.view(q)
         tf = ia = None
         for b, i, s in cv.iter_stmts():
